@@ -42,7 +42,15 @@ type Op struct {
 	Off     int64  `json:"off,omitempty"`
 	Hint    int64  `json:"hint,omitempty"`
 	W       int    `json:"w,omitempty"`
+	// Opaque: PushBlob hands the content over as a reader of unknown length (no Len, no
+	// GetBody for net/http); never part of the Coq case - the registry's answer may not depend on it
+	Opaque bool `json:"opaque,omitempty"`
 }
+
+// opaqueReader hides what kind of reader it wraps.
+type opaqueReader struct{ r io.Reader }
+
+func (o opaqueReader) Read(p []byte) (int, error) { return o.r.Read(p) }
 
 type Result struct {
 	Kind  string   `json:"kind"` // desc read list descs writer n str unit err panic
@@ -284,7 +292,11 @@ func (e *Exec) run(o Op) Result {
 		return Result{Kind: "desc", Desc: fromDesc(d)}
 	case "PushBlob":
 		buf := callerCopy(o.Content)
-		d, err := e.Reg.PushBlob(ctx, o.Repo, ociregistry.Descriptor{MediaType: o.Desc.Media, Digest: ociregistry.Digest(o.Desc.Digest), Size: o.Desc.Size}, bytes.NewReader(buf))
+		var content io.Reader = bytes.NewReader(buf)
+		if o.Opaque {
+			content = opaqueReader{content}
+		}
+		d, err := e.Reg.PushBlob(ctx, o.Repo, ociregistry.Descriptor{MediaType: o.Desc.Media, Digest: ociregistry.Digest(o.Desc.Digest), Size: o.Desc.Size}, content)
 		scribble(buf)
 		if err != nil {
 			return errResult(err)
